@@ -93,9 +93,19 @@ Definition okb (c : case) : bool :=
   | _, _, _, _ => false
   end.
 
-(** Correspondence (detail = first differing stage): 1,2 find_recursive_merge_commits (old,
-    new parents), 3,4 merge_commit_trees, 5 merge_no_resolve of the rebase merge, 6 the
-    rebased tree, 7 path_value, 8 the rebase back. *)
+(** The case lies in the domain of the theorems: parents have smaller positions (so
+    graph_common_ancestors is the greatest-common-ancestor query and the merge-base recursion
+    terminates), commit 0 is the root, target and parents are commits of the table. *)
+Definition in_domain (c : case) : bool :=
+  wf_parentsb (parents_of c)
+  && Nat.ltb (N.to_nat (c_target c)) (length (c_commits c))
+  && forallb (fun p => Nat.ltb p (length (c_commits c))) (nats (c_new_parents c))
+  && match c_commits c with (ps, _) :: _ => match ps with [] => true | _ => false end | [] => false end.
+
+(** Correspondence (detail = first differing stage): 10 the case is outside the theorems'
+    domain; 1,2 find_recursive_merge_commits (old, new parents), 3,4 merge_commit_trees,
+    5 merge_no_resolve of the rebase merge, 6 the rebased tree, 7 path_value, 8 the rebase
+    back. *)
 Definition check_case (c : case) : N :=
   let tab := c_tab c in
   let acc := c_accept c in
@@ -134,7 +144,8 @@ Definition check_case (c : case) : N :=
                 opt_trees_eqb (rebase acc orc ca (tree_of c) 0%nat fuel newp oldp (map (dec tab) r)) (c_back c)
             | None => false
             end in
-  let detail := (if negb s1 then 1 else if negb s2 then 2 else if negb s3 then 3
+  let s0 := in_domain c in
+  let detail := (if negb s0 then 10 else if negb s1 then 1 else if negb s2 then 2 else if negb s3 then 3
                  else if negb s4 then 4 else if negb s5 then 5 else if negb s6 then 6
                  else if negb s7 then 7 else if negb s8 then 8 else 9)%N in
-  verdict (s1 && s2 && s3 && s4 && s5 && s6 && s7 && s8) (okb c) false detail.
+  verdict (s0 && s1 && s2 && s3 && s4 && s5 && s6 && s7 && s8) (okb c) false detail.
